@@ -3,6 +3,7 @@ import ChythonModel.Proofs.C03Spec
 import ChythonModel.Proofs.C03Reject
 import ChythonModel.Proofs.C03TokParen
 import ChythonModel.Proofs.C03SpecRing
+import ChythonModel.Proofs.C03Mapping
 /-!
 # C03 — SMILES reader builds exactly the molecule the text denotes, rejects the rest
 
@@ -188,6 +189,20 @@ example : (∃ st, parse false [.atom 0 { element := [67] }, .lpar, .bond 2, .at
 example : noEmptyOpen [.atom 0 { element := [67] }, .lpar, .bond 2, .rpar, .atom 0 { element := [78] }] = true ∧
     parse false [.atom 0 { element := [67] }, .lpar, .bond 2, .rpar, .atom 0 { element := [78] }] =
       .error (.lib "IncorrectSmiles" "bond before closure") := ⟨rfl, rfl⟩
+
+/-! ## atom numbering from atom maps (`_mapping.py`) -/
+
+/-- `postprocess_parsed_molecule` (default `remap=False`): one number per atom, pairwise distinct, all positive, and an
+    atom whose atom map (`:n`) is non-zero and not already used by an earlier atom of the string is numbered `n` -/
+theorem numbering_spec (r r' : MolRec) (h : mapMolecule r = .ok r') :
+    r'.atoms = r.atoms ∧ r'.mapping.length = r.atoms.length ∧ r'.mapping.Nodup ∧ (∀ x ∈ r'.mapping, 0 < x) ∧
+    (∀ i m, (r.atoms.map mapOr0)[i]? = some m → m ≠ 0 → m ∉ (r.atoms.map mapOr0).take i → r'.mapping[i]? = some m) :=
+  mapMolecule_spec r r' h
+
+/-- `[CH3:7]C[C:7]`: first `:7` kept, the repeated one and the unmapped atom get fresh numbers above every map -/
+example : (mapMolecule { atoms := [{ element := [67], mapping := some 7 }, { element := [67] },
+    { element := [67], mapping := some 7 }], bonds := [], order := [], stereoAtoms := [], stereoBonds := [] }).toOption.map
+      (·.mapping) = some [7, 8, 9] := rfl
 
 /-! ## CXSMILES / reaction front end -/
 
